@@ -84,6 +84,10 @@ var isolatedOps = map[string]bool{}
 // what the case does is the first use of the library in that process (lazily initialised package state)
 var freshOps = map[string]bool{}
 
+// crashOKOps: for these the death of the worker is an acceptable outcome (the case makes a caller-supplied
+// function panic on a goroutine of the library); what must not happen is reported by the worker if it lives
+var crashOKOps = map[string]bool{}
+
 func main() {
 	tier := flag.String("tier", "quick", "quick|thorough")
 	seed := flag.Int64("seed", 1, "PRNG seed")
@@ -430,6 +434,9 @@ func runIsolated(cases []Case, idx []int) {
 				}
 				cases[i].Impl = what
 				cases[i].Oracle = "fail:the process handling this input terminated (" + what + ")"
+				if crashOKOps[cases[i].Op] && !timedOut {
+					cases[i].Impl, cases[i].Oracle = "crashed-or-refused", "ok"
+				}
 				wp = nil
 			}
 			if wp != nil {
